@@ -4,6 +4,7 @@
   recursion limit is run-time behaviour of the interpreter; the check measures that part.
 -/
 import OlVerif.Lower.Height
+import OlVerif.Lower.WfOut
 
 namespace OlVerif.C17
 
@@ -31,6 +32,64 @@ theorem wrap_list_height (cfg : Cfg) (h : cfg.wrapper = .list) (es : List Expr) 
   · simp [Expr.ellipsis, height]
   · simp [heightL]
   · simp [h, listWrapper, height]
+
+/-- **A block nests once per guard, not once per statement.**  With the list wrapper, if every
+    statement of a block lowers to expressions of height at most `H`, the lowered block has height at
+    most `max H 2 + 2 · g`, where `g` counts the statements that may interrupt (break / continue /
+    return somewhere inside) and are followed by further statements - whatever the length of the
+    block: all statements after an interrupt share one guard. -/
+theorem block_height (cx : Ctx) (hw : cx.cfg.wrapper = .list) (H : Nat) :
+    ∀ (ss : List Stmt), (∀ s ∈ ss, ∀ st es st', lowerStmt cx s st = .ok (es, st') → heightL es ≤ H) →
+    ∀ (st : St) (es : List Expr) (st' : St), lowerBlock cx ss st = .ok (es, st') →
+      heightL es ≤ max H 2 + 2 * guardCount cx.flowKind ss
+  | [], _, st, es, st', h => by simp only [lowerBlock] at h; cases h; simp [heightL]
+  | s :: ss, hS, st, es, st', h => by
+      simp only [lowerBlock] at h
+      obtain ⟨⟨a, st1⟩, ha, h⟩ := bind_ok h
+      have h1 := hS s (by simp) st a st1 ha
+      simp only [guardCount]
+      by_cases hd : (s.isDirect || ss.isEmpty) = true
+      · rw [if_pos hd] at h ⊢
+        cases pure_ok h
+        dsimp only
+        omega
+      · rw [if_neg hd] at h ⊢
+        by_cases hm : mayInt cx.flowKind s = true
+        · rw [if_pos hm] at h ⊢
+          obtain ⟨⟨rest, st2⟩, hr, h⟩ := bind_ok h
+          cases pure_ok h
+          have ih := block_height cx hw H ss (fun x hx => hS x (by simp [hx])) st1 rest st2 hr
+          have hwr := wrap_list_height cx.cfg hw rest
+          dsimp only
+          rw [heightL_append]
+          simp only [heightL, height, Expr.not_, Expr.ellipsis]
+          omega
+        · rw [if_neg hm] at h ⊢
+          obtain ⟨⟨rest, st2⟩, hr, h⟩ := bind_ok h
+          cases pure_ok h
+          have ih := block_height cx hw H ss (fun x hx => hS x (by simp [hx])) st1 rest st2 hr
+          dsimp only
+          rw [heightL_append]
+          omega
+
+/-- in particular: a flat block in which one conditional interrupt is followed by any number of
+    statements that cannot interrupt has height at most `max H 2 + 2` -/
+theorem one_guard_for_the_rest (fk : FlowKind) (s : Stmt) (rest : List Stmt) (hs : s.isDirect = false)
+    (hr : ∀ r ∈ rest, mayInt fk r = false ∧ r.isDirect = false) : guardCount fk (s :: rest) ≤ 1 := by
+  have h0 : ∀ (l : List Stmt), (∀ r ∈ l, mayInt fk r = false ∧ r.isDirect = false) → guardCount fk l = 0 := by
+    intro l
+    induction l with
+    | nil => intro _; rfl
+    | cons r l ih =>
+      intro hl
+      simp only [guardCount]
+      split
+      · rfl
+      · rw [(hl r (by simp)).1, ih (fun x hx => hl x (by simp [hx]))]; simp
+  simp only [guardCount, hs, Bool.false_or]
+  split
+  · omega
+  · rw [h0 rest hr]; split <;> omega
 
 /-- non-vacuity / witness for the linear law: three statements, height ≥ 3 -/
 example : height (chainCallWrapper [.name "a", .name "b", .name "c"]) ≥ 3 :=
